@@ -11,7 +11,7 @@ RULE = ("fixed network R-p0-J0=(pa || pb)=J1 (closing the target pa never isolat
         "CLOCKTIME c (daily), rule IF SYSTEM TIME rel t, rule IF SYSTEM CLOCKTIME rel c with rel in {=, >, >=, <, <=}, with and "
         "without ELSE, actions OPEN/CLOSED, priorities {1,3,5}; t in {0, 1h, 1h18 (off the hydraulic grid, on the 6-min rule grid), "
         "1h21m40 (off both), 2h, 25h}, c in {0:00, 1:00, 6:30, 23:00, 23:30 and 23:57 (inside the step that ends at midnight)}; start_clocktime {0, 3h, 22h}; hydraulic step {1h, 30min}; rule "
-        "step {6 min, 1 h}; report 'ALL'.  singles are fully crossed with the options, sets use start {0, 3h} x hyd 1h x rule 6 min.  "
+        "step {6 min, 1 h}; report 'ALL'; plus single controls and rules written into an INP file in every time notation EPANET accepts (H:MM:SS, H:MM, decimal hours; clock times with AM/PM, 24-hour with and without seconds; hours 0, 12, 13, 23) and read by the INP reader.  singles are fully crossed with the options, sets use start {0, 3h} x hyd 1h x rule 6 min.  "
         "oracle: reference event timeline (one-shot time controls, daily clock-time controls, level-triggered rules at positive "
         "multiples of the rule step, rules before simple controls, highest priority wins); every instant at which the timeline "
         "changes must be a solved step and the reported status at every solved step must equal the timeline.  non-trivial: the "
@@ -212,6 +212,22 @@ def cases(tier):
                 s = base(H, 360, clock)
                 s["controls"] = [dict(a, name="c0"), dict(b, name="c1"), dict(c, name="c2")]
                 out.append(s)
+    # the same instants written in an INP file in every notation EPANET accepts (H:MM:SS, H:MM, decimal hours; clock times with
+    # AM/PM, in 24-hour form with and without seconds, decimal) and READ by WNTR's INP reader: quarter-hour instants (exact in
+    # EPANET's float hours), noon and midnight hours included
+    for nt in ("default", "hm", "24h", "24hs", "dec"):
+        cs = [ctl("time", "=", t, "CLOSED") for t in (H, H + 900, 2 * H, 25 * H)]
+        cs += [ctl("clock", "=", c, "CLOSED") for c in (0, 1800, H, 6 * H + 1800, 12 * H, 12 * H + 1800, 13 * H + 900, 23 * H + 1800)]
+        cs += [ctl("time", rel, t, "CLOSED", rule=True, els=("OPEN" if rel != "=" else None)) for rel in ("=", ">=", "<") for t in (H, 2 * H + 900)]
+        cs += [ctl("clock", rel, c, "CLOSED", rule=True, els=("OPEN" if rel != "=" else None)) for rel in ("=", ">=", "<") for c in (1800, 12 * H + 1800, 13 * H + 900)]
+        for c in cs:
+            if nt in ("24h", "24hs") and c["kind"] == "time":
+                continue
+            for clock in (0, 3 * H, 22 * H):
+                s = base(H, 900, clock)
+                s["controls"] = [dict(c, name="c0")]
+                s["inp_read"] = nt
+                out.append(s)
     # EPANET also evaluates rules at the end of a hydraulic step that a simple control cut short; a rule on an instant
     # ('=') then sees another interval than on the rule grid alone.  Outside the statement: kept out of the space.
     def epanet_extra_instant(s):
@@ -237,6 +253,8 @@ def cases(tier):
     out = [s for s in out if not epanet_extra_instant(s)]
     for s in out:
         s["id"] = {"controls": s["controls"], "clock": s["opts"]["clock"], "hyd": s["opts"]["hyd"], "rule": s["opts"]["rule"], "late_clock": bool(s.get("late_clock"))}
+        if s.get("inp_read"):
+            s["id"]["inp_read"] = s["inp_read"]
     return out
 
 
@@ -326,7 +344,39 @@ def status_at(changes, tau):
 
 
 # ------------------------------------------------------------------------------------------------ EPANET text
+def fmt_time(t, nt):
+    if nt in ("hm", "24h"):
+        return "%d:%02d" % (t // 3600, (t % 3600) // 60)
+    if nt == "dec":
+        return "%.10g" % (t / 3600.0)
+    return EN.hms(t)
+
+
+def fmt_clock(t, nt):
+    t = t % DAY
+    if nt == "24h":
+        return "%d:%02d" % (t // 3600, (t % 3600) // 60)
+    if nt == "24hs":
+        return EN.hms(t)
+    if nt == "dec":
+        return "%.10g" % (t / 3600.0)
+    if nt == "hm":
+        x = EN.clock(t)                      # H:MM:SS AM -> H:MM AM
+        return x[:x.rindex(":")] + x[-3:]
+    return EN.clock(t)
+
+
 def en_texts(s):
+    nt = s.get("inp_read")
+    if nt and nt != "default":
+        class _E(object):
+            hms = staticmethod(lambda t: fmt_time(t, nt))
+            clock = staticmethod(lambda t: fmt_clock(t, nt))
+        return _en_texts(s, _E)
+    return _en_texts(s, EN)
+
+
+def _en_texts(s, EN):
     ctr, rul = [], []
     for i, c in enumerate(s["controls"]):
         if not c.get("rule"):
@@ -368,7 +418,18 @@ def run_case(s):
         if t not in en_times:
             return {"viol": [], "harness": "reference timeline changes at t=%d, which EPANET does not visit (%s)" % (t, s["controls"]), "counts": counts}
     # ---- WNTR
-    if s.get("late_clock"):
+    if s.get("inp_read"):
+        import wntr, os, tempfile
+        fd, pth = tempfile.mkstemp(suffix=".inp", dir=".")
+        with os.fdopen(fd, "w") as f:
+            f.write(EN.inp_lps(s, ct, rt))
+        try:
+            wn = wntr.network.WaterNetworkModel(pth)
+        finally:
+            os.unlink(pth)
+        wn.options.time.report_timestep = "ALL"
+        r = simulate(s, wn=wn)
+    elif s.get("late_clock"):
         s0 = clone(s)
         s0["opts"]["clock"] = 0
         wn = build(s0)
@@ -384,6 +445,8 @@ def run_case(s):
         kinds = "multi-target:" + kinds
     if s.get("late_clock"):
         kinds = "start_clocktime-set-after-controls:" + kinds
+    if s.get("inp_read"):
+        kinds = "read-from-inp:%s:" % s["inp_read"] + kinds
     counts["solved_instants"] = len(r.times)
     for l in targets:
         st = r.link["status"][l]
